@@ -30,6 +30,11 @@ pub const EXTRA: &[(&str, &str)] = &[
     ("circuit_inverse_loop", "use core::circuit::{AddInputResultTrait, CircuitElement, CircuitInput, CircuitInputs, CircuitModulus, EvalCircuitTrait, circuit_inverse, circuit_mul, circuit_add, u96};\nfn f(values: Array<u96>) -> felt252 { let mut count = 0; for v in values { let in0 = CircuitElement::<CircuitInput<0>> {}; let inv = circuit_inverse(in0); let modulus = TryInto::<_, CircuitModulus>::try_into([7, 0, 0, 0]).unwrap(); match (inv,).new_inputs().next([v, 0, 0, 0]).done().eval(modulus) { Ok(_) => { count += 1; }, Err(_) => {}, } } count }\n"),
     ("circuit_mixed", "use core::circuit::{AddInputResultTrait, CircuitElement, CircuitInput, CircuitInputs, CircuitModulus, EvalCircuitTrait, CircuitOutputsTrait, circuit_inverse, circuit_mul, circuit_add, circuit_sub, u96, u384};\nfn f(a: u96, b: u96) -> felt252 { let in0 = CircuitElement::<CircuitInput<0>> {}; let in1 = CircuitElement::<CircuitInput<1>> {}; let s = circuit_add(in0, in1); let m = circuit_mul(s, in1); let d = circuit_sub(m, in0); let i = circuit_inverse(d); let modulus = TryInto::<_, CircuitModulus>::try_into([11, 0, 0, 0]).unwrap(); match (i, m).new_inputs().next([a, 0, 0, 0]).next([b, 0, 0, 0]).done().eval(modulus) { Ok(outs) => { let r: u384 = outs.get_output(i); r.limb0.into() }, Err(_) => 99, } }\n"),
     ("circuit_inverse_first", "use core::circuit::{AddInputResultTrait, CircuitElement, CircuitInput, CircuitInputs, CircuitModulus, EvalCircuitTrait, circuit_inverse, circuit_mul, u96};\nfn f(a: u96, b: u96) -> felt252 { let in0 = CircuitElement::<CircuitInput<0>> {}; let in1 = CircuitElement::<CircuitInput<1>> {}; let i = circuit_inverse(in0); let m = circuit_mul(i, in1); let m2 = circuit_mul(m, m); let modulus = TryInto::<_, CircuitModulus>::try_into([6, 0, 0, 0]).unwrap(); let mut t = 0; let mut k: u8 = 0; while k != 2 { k += 1; match (m2,).new_inputs().next([a, 0, 0, 0]).next([b, 0, 0, 0]).done().eval(modulus) { Ok(_) => { t += 10; }, Err(_) => { t += 1; }, } } t }\n"),
+    ("dict_big_keys", "fn f(a: felt252, b: felt252) -> u8 { let mut d: Felt252Dict<u8> = Default::default(); d.insert(a, 1); d.insert(b, 2); d.insert(a, 3); let x = d.get(a) + d.get(b) + d.get(0); d.insert(b + 1, x); d.get(b + 1) }\n"),
+    ("dict_entry_api", "use core::dict::Felt252DictEntryTrait;\nfn f(a: felt252, b: u8) -> u8 { let mut d: Felt252Dict<u8> = Default::default(); let (e, prev) = d.entry(a); let mut d = e.finalize(prev + b / 2); let (e, prev) = d.entry(a); let mut d = e.finalize(prev / 2 + 1); let sq = d.squash(); let mut d2 = core::dict::SquashedFelt252DictTrait::into_entries(sq); match d2.pop_front() { Some((_k, first, last)) => first + last, None => 0 } }\n"),
+    ("span_slices", "fn f(a: u8, b: u8) -> u32 { let arr = array![10_u32, 20, 30, 40]; let sp = arr.span(); let s: usize = (a % 6).into(); let l: usize = (b % 6).into(); if s + l > sp.len() { return 999; } let sl = sp.slice(s, l); let mut t = sl.len(); match sl.get(0) { Some(x) => { t += *x.unbox(); }, None => {} } t }\n"),
+    ("span_pops", "fn f(a: u8) -> u32 { let arr = array![1_u32, 2, 3]; let mut sp = arr.span(); let mut t = 0_u32; let mut i = 0_u8; while i != a % 5 { i += 1; match sp.pop_back() { Some(x) => { t += *x; }, None => { t += 100; } } match sp.pop_front() { Some(x) => { t += *x * 10; }, None => { t += 1000; } } } t + sp.len() }\n"),
+    ("multi_pop", "fn f(a: u8) -> u32 { let arr = array![1_u32, 2, 3, 4, 5]; let mut sp = arr.span(); let mut t = 0_u32; let mut i = 0_u8; while i != a % 4 { i += 1; match sp.multi_pop_front::<2>() { Some(x) => { let [p, q] = (*x).unbox(); t += p + q; }, None => { t += 100; } } } match sp.multi_pop_back::<3>() { Some(x) => { let [p, _q, r] = (*x).unbox(); t += p * r; }, None => { t += 7; } } t }\n"),
     ("while_let", "fn f(a: u8, b: u8) -> u16 { let mut arr = array![a, b, 9]; let mut t: u16 = 0; while let Some(x) = arr.pop_front() { t += x.into(); } t }\n"),
 ];
 
